@@ -67,6 +67,7 @@ class Call:
 class Obs(list):
     """an observation; `entry_fail` carries the per-entry check done while the real objects are at hand"""
     entry_fail = None
+    attached = False         # the menu is the one the in-flight completer coroutine created (it is loading)
 
 
 class Env:
@@ -124,6 +125,7 @@ class Rig:
         self.keep_text = False
         self.obj_tags = {}       # id(Completion made by the buffer itself) -> (Completion, Call, index)
         self.hl_args = None
+        self.sync_menus = []     # CompletionState objects installed synchronously (labels InstallMenu / HistoryLines)
         self.prev_cs = None
         self.reported = set()
 
@@ -217,6 +219,8 @@ class Rig:
                 call.items = [(c.text, c.start_position) for c in comps]
                 for j, c in enumerate(comps):
                     self.obj_tags[id(c)] = (c, call, j)
+                if cs is not None:
+                    self.sync_menus.append(cs)
             elif k == 20:
                 from prompt_toolkit.document import Document
                 b.reset(Document(unS(l[1]), l[2]))
@@ -247,6 +251,8 @@ class Rig:
                 call.items = [(unS(t), st) for t, st in l[1]]
                 b._set_completions(completions=[Completion(unS(t), st, display_meta="#%d.%d" % (call.no, j))
                                                 for j, (t, st) in enumerate(l[1])])
+                if b.complete_state is not None:
+                    self.sync_menus.append(b.complete_state)
                 b.go_to_completion(0)
             else:
                 raise ValueError("not a user label: %r" % (l,))
@@ -373,6 +379,9 @@ class Rig:
                 [dsx(c.doc) for c in self.cactive], [dsx(c.doc) for c in self.vactive], [dsx(c.doc) for c in self.sactive]])
         if cs is not None:
             o.entry_fail = self.entry_check(cs)
+            # async_completer does not start while a menu exists, so a menu that was not installed
+            # synchronously and coexists with an in-flight completer call is that call's own menu
+            o.attached = bool(self.cactive) and not any(cs is m for m in self.sync_menus)
         return o
 
     def vst_code(self):
@@ -589,7 +598,20 @@ def run_on_impl(case, want_rig=False):
     return with_watchdog(lambda: env.loop.run_until_complete(go()), 20)
 
 
-def impl_case(case):
+def is_lc_case(case):
+    return isinstance(case, list) and len(case) == 3 and case[0] == 30
+
+
+def impl_case(case, window=0.03):
+    if is_lc_case(case):
+        import c15_lifecycle
+        if not c15_lifecycle.valid_case(case):
+            return [-999], [], None
+        try:
+            out, bad = with_watchdog(lambda: c15_lifecycle.run_case(Env.get(), case, window), 90)
+        except Hang:
+            return [-998], [], None
+        return out, [], ({"lc_oracle": bad} if bad else None)
     if is_fn_case(case):
         if not valid_fn_case(case):
             return [-999], [], None
@@ -622,8 +644,60 @@ def _apply(orig, comps, idx):
     return before + ct + t[c:], len(before) + len(ct)
 
 
-def oracle_step(g, ob, oa):
+def _tbc(d):
+    return d[0][:d[1]]
+
+
+def oracle_finish(g, ob, oa, cfg):
+    """The completer coroutine is resumed (CYield / CEnd).  Property-level clauses about what the end of a
+    completion request may do (round 7):
+    (a) a request whose menu was cancelled / closed while it was loading, the text before the cursor being
+        unchanged, is over: no menu comes back, the completer is not run again;
+    (b) when the stream of the loading menu ends with exactly ONE completion and nothing selected: a completion
+        that changes nothing leaves no menu; a real one (start_position 0 included) is kept in the menu or applied."""
+    st, text, cur, ocs, vst, vsrc, osg, flags, ca, va, sa = oa
+    lab = g[-1]
+    k = lab[0]
+    if k not in (10, 11) or st != 0 or len(ob[8]) != 1:
+        return None
+    bdoc = [ob[1], ob[2]]
+    if not ob[3]:
+        if _tbc(bdoc) == _tbc(ob[8][0]) and (ocs or ca):
+            return ("the completion request for %r/%d was abandoned (its menu was closed while it was loading) and the text before the cursor "
+                    "is unchanged, yet it was %s" % (unS(ob[8][0][0]), ob[8][0][1],
+                                                      "run again and a menu came back" if ocs else "run again"),
+                    {"family": "abandoned-request-rerun", "at": "completer-finish"})
+        return None
+    if not getattr(ob, "attached", False):
+        return None
+    _, borig, bcomps, bidx = ob[3][0]
+    comps = [[c[0], c[1]] for c in bcomps] + ([[lab[2], lab[3]]] if k == 10 else [])
+    ends = k == 11 or len(comps) >= cfg[4]
+    if not ends or len(comps) != 1 or bidx or [bdoc[0], bdoc[1]] != [borig[0], borig[1]]:
+        return None
+    if -comps[0][1] > borig[1]:
+        return None          # start_position before the beginning of the text: outside the documented range
+    applied = _apply((borig[0], borig[1]), comps, 0)
+    what = "Completion(%r, %d) for %r/%d" % (unS(comps[0][0]), comps[0][1], unS(borig[0]), borig[1])
+    if applied == (borig[0], borig[1]):
+        if ocs:
+            return ("the only completion of the finished request, %s, changes nothing, but a menu is left open" % what,
+                    {"family": "noop-completion-menu", "at": "completer-finish"})
+        return None
+    kept = bool(ocs) and [[c[0], c[1]] for c in ocs[0][2]] == comps
+    if not kept and (text, cur) != applied:
+        return ("the only completion of the finished request, %s, is a real one (applying it gives %r/%d) but it was neither kept in the "
+                "menu nor applied: text %r/%d, menu=%s" % (what, unS(applied[0]), applied[1], unS(text), cur, bool(ocs)),
+                {"family": "single-completion-dropped", "at": "completer-finish"})
+    return None
+
+
+def oracle_step(g, ob, oa, cfg=None):
     """None or (clause, tags)."""
+    if cfg is not None:
+        bad = oracle_finish(g, ob, oa, cfg)
+        if bad:
+            return bad
     st, text, cur, ocs, vst, vsrc, osg, flags, ca, va, sa = oa
     lab = g[-1]
     k = lab[0]
@@ -910,6 +984,8 @@ MALFORMED = [
     [19, [S("a"), S("b")], S("a"), 1, 1],                                   # working_lines[working_index] is not the text
     [19, [S("a")], S("a"), 2, 0],                                           # cursor beyond the text
     [19, [S("a")], S("a"), 1, 1],                                           # working index outside
+    [30, 1, [[4, 0, 2]]],                                                   # life cycle: `more` is not a boolean
+    [30, 1, [[5]]],                                                         # life cycle: unknown label
 ]
 
 
@@ -929,7 +1005,19 @@ def gen_batches(chk):
         ("validator, not while typing", [0, 1, 0, 0, 10000], "ab", 1, "val", [], 5 if thorough else 4),
         ("everything", [1, 1, 1, 1, 10000], "ab", 1, "all", [("S1", G_user([7, 1]), yes)], 4 if thorough else 3),
     ]
-    fixed = load_corpus(PROP) + cycle_cases() + [WITNESS] + MALFORMED
+    # the end of a request with exactly one completion: a real one with start_position 0 whose text equals the
+    # text before the cursor, real ones that replace, and the two shapes of a no-op - for every start flag, also
+    # ended by max_number_of_completions = 1; and a request abandoned by cancel / forward delete / typing
+    single = []
+    for f in (0, 1, 2, 3):
+        for ct, st in (("x", 0), ("xy", -1), ("", 0), ("x", -1), ("Xx", -1)):
+            single.append([[0, 0, 0, 0, 10000], S("x"), 1, [[[7, f]], [[9]], [[9], [10, 0, S(ct), st]], [[9], [11, 0]], [[6]]]])
+            single.append([[0, 0, 0, 0, 1], S("x"), 1, [[[7, f]], [[9]], [[9], [10, 0, S(ct), st]], [[6]]]])
+        for ab in ([6], [15, 1], [1, S("b")], [3, 0]):
+            for fin in ([10, 0, S("xy"), -1], [11, 0]):
+                single.append([[0, 0, 0, 0, 10000], S("xz"), 1,
+                               [[[7, f]], [[9]], [[9], [10, 0, S("xa"), -1]], [ab], [[9], fin], [[9], [11, 0]]]])
+    fixed = load_corpus(PROP) + cycle_cases() + single + [WITNESS] + MALFORMED
     yield "corpus+cycle+witness+malformed", fixed
     for name, cfg, text, cur, kind, extra, depth in fams:
         out = []
@@ -940,21 +1028,25 @@ def gen_batches(chk):
         yield "exhaustive:%s:depth%d" % (name, depth), out
     yield "history-lines(fn):exhaustive<=%d" % (4 if thorough else 3), hl_fn_exhaustive(4 if thorough else 3)
     yield "history-lines(fn):random", hl_fn_random(rng, 20000 if thorough else 2500)
+    import c15_lifecycle
+    yield "threaded-life-cycle(gated)", c15_lifecycle.cases(rng, 150 if thorough else 14)
     nrand = 30000 if thorough else 3000
     yield "random", [random_case(rng, 40 if thorough else 24) for _ in range(nrand)]
 
 
 # --------------------------------------------------------------------------
 
-def first_violation(trace):
+def first_violation(trace, cfg=None):
     for j, (g, ob, oa) in enumerate(trace):
-        bad = oracle_step(g, ob, oa)
+        bad = oracle_step(g, ob, oa, cfg)
         if bad:
             return j, bad
     return None
 
 
 def tagger(c, a, m):
+    if is_lc_case(c):
+        return {"at": "threaded-life-cycle", "field": "runs"}
     if is_fn_case(c):
         return {"at": "HistoryLines", "field": "computed-list"}
     if not isinstance(m, list) or not isinstance(a, list):
@@ -979,7 +1071,18 @@ def describe_fn(c, a):
         return "case=%r impl=%r" % (c, a)
 
 
+def describe_lc(c, a):
+    import c15_lifecycle
+    try:
+        return "Buffer + ThreadedCompleter(gated): %s -> [running, threads in get_completions, runs, menu, menu size] = %r" % (
+            " ; ".join(c15_lifecycle.label_str(l) for l in c[2]), a)
+    except Exception:  # noqa
+        return "case=%r impl=%r" % (c, a)
+
+
 def describe(c, a, m):
+    if is_lc_case(c):
+        return describe_lc(c, a) + " ; model %r" % (m,)
     if is_fn_case(c):
         try:
             return describe_fn(c, a) + " ; model %r" % ([(unS(e[0]), e[1], e[2]) for e in m],)
@@ -1011,7 +1114,27 @@ def main(tier):
         oracle_bad = set()
         for i, c in enumerate(cases):
             out, trace, extra = impl_case(c)
+            if is_lc_case(c) and out not in ([-999], [-998]) and sx_norm(out) != run_model("c15", [c])[0]:
+                # quiescence is detected by a stability window: before reporting a difference, run the
+                # scenario again with a long window (a premature observation can only be cured by waiting)
+                out, trace, extra = impl_case(c, window=0.4)
             impl_results.append(out)
+            if is_lc_case(c):
+                chk.count_case(c, bool(out) and out not in ([-999], [-998]))
+                lcount["life-cycle steps"] = lcount.get("life-cycle steps", 0) + len(c[2])
+                if out == [-998] or [-998] in out:
+                    chk.violation("oracle", "threaded life cycle: the scenario does not settle / hangs  [%s]" % describe_lc(c, out),
+                                  {"family": "hang", "at": "threaded-life-cycle"}, {"case": c})
+                    oracle_bad.add(i)
+                if extra and extra.get("lc_oracle"):
+                    oracle_bad.add(i)
+                    chk.violation("oracle", "%s  [%s]" % (extra["lc_oracle"], describe_lc(c, out)),
+                                  {"family": "single-flight", "at": "threaded-life-cycle"},
+                                  {"case": c, "clause": extra["lc_oracle"],
+                                   "how": "harness/c15_lifecycle.py run_case: real Buffer + ThreadedCompleter around a gated completer"})
+                if i % 7 == 0:
+                    chk.sample({"batch": bname, "life_cycle": describe_lc(c, out)}, limit=14)
+                continue
             if is_fn_case(c):
                 chk.count_case(c, bool(out) and out not in ([-999], [-998]))
                 lcount["HistoryLines(fn)"] = lcount.get("HistoryLines(fn)", 0) + 1
@@ -1034,7 +1157,7 @@ def main(tier):
             for g, ob, oa in trace:
                 nm = LNAMES[g[-1][0]]
                 lcount[nm] = lcount.get(nm, 0) + 1
-            fv = first_violation(trace)
+            fv = first_violation(trace, c[0])
             if fv:
                 j, (clause, tags) = fv
                 oracle_bad.add(i)
@@ -1098,6 +1221,9 @@ def main(tier):
         "function-level family (working lines, text, cursor, working index -> completions with start_position and display_meta) "
         "exhaustive over texts <= 3/4 characters of {a, b, space, newline} x every cursor x 8 history windows plus random windows "
         "with every str.isspace character and near misses. "
+        "Round 7: the producer-thread life cycle (Model/C15_Thread.v) is tied by gated scenarios on a real Buffer with ThreadedCompleter "
+        "around a completer whose generator blocks at a gate before every item (start / cancel / type / let thread i compute one more item or "
+        "finish), observed at quiescence: running flag, threads inside get_completions, runs started, menu, menu size. "
         "non-trivial = some step changed the observed state; distinct by hash of the whole case")
     chk.assumptions += [
         "code between two awaits runs atomically (asyncio single-threaded semantics); thread executors (ThreadedCompleter etc.) are outside the model (their hand-off is the det_run / dc_run hypothesis of C15_threaded_values / C15_threaded_completions)",
@@ -1106,6 +1232,8 @@ def main(tier):
         "the history window start_history_lines_completion reads is set by the harness on the real Buffer (_working_lines / working index) "
         "right before the call: how history loading and navigation fill it is C14's subject, the model takes it as an argument of the label",
         "C15_threaded_completions assumes the completer's items are a function of the document of the call (dc_run); the real-thread stream checks that on ThreadedCompleter",
+        "life-cycle scenarios: quiescence is detected by a stability window (30 ms; a differing scenario is re-run with 400 ms before it is reported); "
+        "the queue bound of generator_to_async_generator (back-pressure) and max_number_of_completions are not in the life-cycle model",
         "history navigation, undo, selection and the Buffer methods not named in Model/C15_Async.v's label type are outside the label alphabet "
         "(synchronous validate(), validate_and_handle and reset() are inside: labels Validate, ValidateAndHandle, Reset)",
     ]
@@ -1127,6 +1255,14 @@ def replay(data):
         print("200 fresh threaded scenarios: oracle ok")
         return 0
     case = rep["case"]
+    if is_lc_case(case):
+        out, _, extra = impl_case(case, window=0.2)
+        print(describe_lc(case, out))
+        bad = extra and extra.get("lc_oracle")
+        print("ORACLE FAILS: " + bad if bad else "oracle ok")
+        m = run_model("c15", [case])[0]
+        print("model agrees" if m == sx_norm(out) else "model differs: %r" % (m,))
+        return 1 if bad else 0
     if is_fn_case(case):
         out, _, extra = impl_case(case)
         print(describe_fn(case, out))
@@ -1142,7 +1278,7 @@ def replay(data):
     rc = 0
     print("config cwt/validator/vwt/suggest/max = %r  text=%r cursor=%d" % (case[0], unS(case[1]), case[2]))
     for g, ob, oa in trace:
-        bad = oracle_step(g, ob, oa)
+        bad = oracle_step(g, ob, oa, case[0])
         print("  %-34s -> %s   %s" % (group_str(g), describe_obs(oa), "ORACLE FAILS: " + bad[0] if bad else "oracle ok"))
         if bad:
             rc = 1
